@@ -90,6 +90,9 @@ func (p *c19Proto) ParsePackage(b []byte) (int, int) {
 	n, st := protocol.TarsRequest(b)
 	if st == protocol.PackageFull {
 		atomic.AddInt32(&p.parsed, 1)
+		if n >= 8 && len(b) >= 8 {
+			p.lg.add(c19KRead, int(binary.BigEndian.Uint32(b[4:8]))) // the receive loop has cut this request out of its stream
+		}
 	}
 	return n, st
 }
@@ -112,6 +115,9 @@ func c19RunTCP(sc c19Scenario) c19ChildOut {
 	}
 	if sc.Mode == "tcp-shutdown" {
 		return c19RunTCPShutdown(sc)
+	}
+	if sc.Mode == "tcp-late-accept" {
+		return c19RunTCPLateAccept(sc)
 	}
 	total := sc.Subs * sc.Jobs
 	lg := &c19Log{ev: make([]int64, 4*total+64)}
@@ -436,5 +442,138 @@ func c19RunTCPShutdown(sc c19Scenario) c19ChildOut {
 		out.Note = fmt.Sprint(phase.Load())
 	}
 	out.Fails = append(out.Fails, c19Monitor(sc, out.Trace, out.Complete, out.HighWater)...)
+	return out
+}
+
+// c19RunTCPLateAccept: a connection accepted at the very moment of shutdown. The accept loop sits in Accept (no accept
+// time-out configured); isClosed is stored (first statement of Shutdown, hook VerifC12StoreClosed), then a client connects
+// and sends its requests at once: the accept loop takes this one connection, sees the flag and goes to its shutdown tail
+// while the new connection goroutine is only just starting (with GOMAXPROCS = 1 it has not run at all). Then the real
+// Shutdown is called. Every request the server has READ must be executed exactly once before the pool's goroutines are
+// gone — the receive loop of that last connection has to be registered with recvDone before the accept loop can leave.
+func c19RunTCPLateAccept(sc c19Scenario) c19ChildOut {
+	var out c19ChildOut
+	var mu sync.Mutex
+	fail := func(sig, desc string) {
+		mu.Lock()
+		out.Fails = append(out.Fails, Failure{Sig: sig, Desc: desc})
+		mu.Unlock()
+	}
+	nLate := sc.Jobs
+	if nLate < 1 {
+		nLate = 1
+	}
+	total := nLate
+	lg := &c19Log{ev: make([]int64, 4*total+64)}
+	p := &c19Proto{lg: lg, gate: make(chan struct{}), durOf: make([]int, total+1), count: make([]int32, total+1)}
+	for i := range p.durOf {
+		p.durOf[i] = sc.Dur
+	}
+	var phase atomic.Value
+	phase.Store("listen")
+	done := make(chan struct{})
+	go func() {
+		defer close(done)
+		var ts *transport.TarsServer
+		var addr string
+		for try := 0; ; try++ {
+			l, err := net.Listen("tcp", "127.0.0.1:0")
+			if err != nil {
+				out.Note = "skipped: no loopback listener: " + err.Error()
+				return
+			}
+			addr = l.Addr().String()
+			l.Close()
+			ts = transport.NewTarsServer(p, &transport.TarsServerConf{Proto: "tcp", Address: addr, MaxInvoke: int32(sc.W), QueueCap: sc.Q,
+				ReadTimeout: 100 * time.Millisecond, IdleTimeout: time.Hour})
+			if err := ts.Listen(); err == nil {
+				break
+			} else if try >= 5 {
+				out.Note = "skipped: cannot listen: " + err.Error()
+				return
+			}
+		}
+		served := make(chan struct{})
+		go func() { ts.Serve(); close(served) }()
+		wait := func(cond func() bool) bool {
+			t0 := time.Now()
+			for !cond() {
+				if time.Since(t0) > c19Slack {
+					return false
+				}
+				time.Sleep(200 * time.Microsecond)
+			}
+			return true
+		}
+		pkt := func(id int) []byte {
+			b := make([]byte, 12)
+			binary.BigEndian.PutUint32(b[0:4], 12)
+			binary.BigEndian.PutUint32(b[4:8], uint32(id))
+			return b
+		}
+		// no connection yet (a registered receive loop would keep recvDone above zero and hide the order of Add and go):
+		// give the accept loop time to block in Accept
+		phase.Store("warm-up")
+		time.Sleep(100 * time.Millisecond)
+		// the moment of shutdown
+		phase.Store("late-accept")
+		lg.add(c19KRelCall, 0)
+		transport.VerifC12StoreClosed(ts)
+		cb, err := net.DialTimeout("tcp", addr, c19Slack)
+		if err != nil {
+			fail("C19/hang/tcp-dial", "cannot connect to the server at the moment of shutdown: "+err.Error())
+			return
+		}
+		defer cb.Close()
+		go io.Copy(io.Discard, cb)
+		burst := []byte{}
+		for i := 0; i < nLate; i++ {
+			lg.add(c19KSubCall, 1+i)
+			burst = append(burst, pkt(1+i)...)
+		}
+		cb.Write(burst)
+		sctx, cancel := context.WithTimeout(context.Background(), 6*c19Slack)
+		defer cancel()
+		go ts.Shutdown(sctx)
+		phase.Store("drain")
+		select {
+		case <-served:
+		case <-time.After(c19Slack):
+			fail("C19/hang/release-return-on-idle-pool", fmt.Sprintf("Serve did not return within %v after the shutdown (W=%d Q=%d GOMAXPROCS=%d)", c19Slack, sc.W, sc.Q, sc.Procs))
+			return
+		}
+		r := atomic.LoadInt32(&p.running)
+		lg.add(c19KRelRet, 0)
+		if r != 0 {
+			fail("C19/release-returned-while-running", fmt.Sprintf("the pool was released while %d request(s) were being handled", r))
+		}
+		phase.Store("workers-stopped")
+		if !wait(func() bool { return c19PoolGoroutines() == 0 }) {
+			fail("C19/hang/worker-not-stopped", fmt.Sprintf("%d goroutine(s) of the pool still exist %v after the server released it (W=%d Q=%d mode=%s)", c19PoolGoroutines(), c19Slack, sc.W, sc.Q, sc.Mode))
+		}
+		// a receive loop that is still alive would read within its 100 ms window: give it that, then every request READ must have run
+		time.Sleep(250 * time.Millisecond)
+		read, ran := atomic.LoadInt32(&p.parsed), atomic.LoadInt32(&p.ended)
+		out.Note = fmt.Sprintf("read %d of %d, executed %d", read, total, ran)
+		if ran < read {
+			fail("C19/submitted-job-never-run", fmt.Sprintf("a connection accepted at the moment of shutdown: the server read %d request(s) and executed only %d — the pool was released before that connection's receive loop had registered (W=%d Q=%d GOMAXPROCS=%d, %d request(s) on the late connection)", read, ran, sc.W, sc.Q, sc.Procs, nLate))
+		}
+		for id := 1; id <= total; id++ {
+			if n := atomic.LoadInt32(&p.count[id]); n > 1 {
+				fail("C19/job-started-twice", fmt.Sprintf("request %d was handled %d times", id, n))
+			}
+		}
+	}()
+	select {
+	case <-done:
+	case <-time.After(8 * c19Slack):
+		fail("C19/hang/scenario", fmt.Sprintf("scenario stuck in phase %v", phase.Load()))
+	}
+	out.Trace = lg.snapshot()
+	out.HighWater = int(atomic.LoadInt32(&p.high))
+	if out.Note == "" {
+		out.Note = fmt.Sprint(phase.Load())
+	}
+	out.Fails = append(out.Fails, c19Monitor(sc, out.Trace, false, out.HighWater)...)
 	return out
 }
